@@ -232,6 +232,29 @@ def evaluate(inp):
             only_b = {n for n in gb.nodes if len(f1.nodes[n]['fragid']) == 1}
             if any(f1.has_edge(x, y) for x in only_a for y in only_b) and not c0.has_edge(keymap1.get(a, -1), keymap1.get(b, -2)):
                 return bad('bond-across-zero-order-edge', None, {'string': s1, 'edge': (a, b)})
+    # history on a caller-owned base graph: first resolved with a library that defines the inserted nodes, then again
+    # (same graph object) with the library in which they are virtual; the second result must be the fresh one
+    if virt1:
+        from cgsmiles import read_cgsmiles
+        vnames = sorted({c1.nodes[k]['fragname'] for k in virt1})
+        extra = ','.join('#%s=%s' % (v, '[$]O' if inp['all_atom'] else '[$][#Q]') for v in vnames)
+        lib0 = s1.split('.{', 1)[1]
+        lib_def = '{' + lib0[:-1] + ',' + extra + '}'
+        lib_virt = '{' + lib0
+        try:
+            g = read_cgsmiles(G.ser(dtoks))
+            MoleculeResolver.from_graph(lib_def, g, last_all_atom=inp['all_atom']).resolve_all()
+            c2, f2 = MoleculeResolver.from_graph(lib_virt, g, last_all_atom=inp['all_atom']).resolve_all()
+        except Exception as e:
+            return bad('history:raises:' + type(e).__name__, None, {'string': s1, 'first_library': lib_def, 'error': repr(e)[:150]})
+        if fine_dump(f2, keymap1) != fine_dump(f1, keymap1):
+            return bad('history:fine-graph-differs-after-reuse-of-the-base-graph', None, {'string': s1, 'first_library': lib_def})
+        for k in sorted(c2.nodes):
+            g2 = c2.nodes[k].get('graph')
+            own = {n for n, d in f2.nodes(data=True) if k in d.get('fragid', [])}
+            if set(g2.nodes if g2 is not None else ()) != own:
+                return bad('history:coarse-node-carries-stale-atoms', sorted(own),
+                           {'string': s1, 'first_library': lib_def, 'coarse': k, 'carries': sorted(g2.nodes) if g2 is not None else None})
     return Verdict(outcome='%d/%d/%s' % (len(c1), len(f1), len(deco)))
 
 
